@@ -83,9 +83,19 @@ fn main() {
         let seed = doc["seed"].as_u64().unwrap_or(args.seed);
         let mut m = Monitor::with(&args.prop, tier, seed);
         run_shard(shard, &mut m, Some((entry, idx)));
-        m.finish(RULE, ASSUMPTIONS, 0);
+        // a replay never rewrites the evidence file
+        if !m.inconclusive.is_empty() {
+            println!("INCONCLUSIVE property={} {}", args.prop, m.inconclusive.join("; "));
+            std::process::exit(2);
+        }
+        if m.violations() > 0 || m.known_hit_count(doc["signature"].as_str().unwrap_or("")) > 0 {
+            println!("VIOLATION property={} replay={} (reproduced: {})", args.prop, f.display(), doc["signature"].as_str().unwrap_or(""));
+            std::process::exit(1);
+        }
+        println!("HELD property={} on the replayed case (not reproduced)", args.prop);
+        std::process::exit(0);
     }
-    let shards = args.tier.pick(16, 128);
+    let shards = args.tier.pick(16, 256);
     vcore::run_shards(&mut mon, shards, vcore::default_threads(), |s, m| run_shard(s, m, None));
     mon.extra.insert("allow_skip_signer_certification".into(), serde_json::json!(false));
     mon.finish(RULE, ASSUMPTIONS, 500);
